@@ -161,10 +161,23 @@ def main(argv=None):
   known_hits = 0
   reported = []
   seen_sigs = set()
-  for d in bad[: (len(bad) if args.keep_going else 6)]:
+  processed = 0
+  for d in bad:
+    if processed >= 6 and not args.keep_going:
+      break
     v = d["violation"]
     events = d["events"]
+    # A violation whose own description already satisfies a listed signature needs no minimising.
+    kf0 = match_known(findings, prop, v, events)
+    if kf0 is not None and kf0.get("match_raw", True):
+      known_hits += 1
+      line = "KNOWN-FINDING: property=%s %s" % (prop, kf0["what"])
+      if line not in known_lines:
+        known_lines.append(line)
+        print(line)
+      continue
     # confirm, minimise
+    processed += 1
     r2 = runmod.execute(profile, cfg=d["cfg"], events=events, time_limit=120)
     if not runmod.same_failure(r2.violation, v):
       print("HARNESS-NONDETERMINISM run=%s seed=%s first=%s second=%s" % (
